@@ -666,10 +666,30 @@ pub fn c20(tier: Tier) -> i32 {
                                 problems.push(format!("{} RecordSetIter: count() differs from len() {}", stringify!($m), n));
                             }
                             let heads: Vec<Vec<u8>> = (&set).into_iter().map(|r| { use seq_io::$m::Record; r.head().to_vec() }).collect();
-                            for j in 0..=n {
-                                let got = (&set).into_iter().nth(j).map(|r| { use seq_io::$m::Record; r.head().to_vec() });
+                            for j in 0..=n + 1 {
+                                let mut it = (&set).into_iter();
+                                let got = it.nth(j).map(|r| { use seq_io::$m::Record; r.head().to_vec() });
                                 if got != heads.get(j).cloned() {
                                     problems.push(format!("{} RecordSetIter: nth({}) differs from stepping", stringify!($m), j));
+                                }
+                                // ... and leaves the iterator where j + 1 steps leave it
+                                let to_come = n.saturating_sub(j + 1);
+                                let (a, b) = it.size_hint();
+                                if a > to_come || b.map_or(false, |b| b < to_come) {
+                                    problems.push(format!("{} RecordSetIter: size_hint() = {:?} after nth({}) on {} items", stringify!($m), (a, b), j, n));
+                                }
+                                let rest: Vec<Vec<u8>> = it.by_ref().map(|r| { use seq_io::$m::Record; r.head().to_vec() }).collect();
+                                if rest[..] != heads[(j + 1).min(n)..] {
+                                    problems.push(format!("{} RecordSetIter: items after nth({}) on {} items differ from stepping", stringify!($m), j, n));
+                                }
+                                if it.next().is_some() {
+                                    problems.push(format!("{} RecordSetIter: item after the end (after nth({}))", stringify!($m), j));
+                                }
+                                // skip(j) polled past its end stays at the end
+                                let mut sk = (&set).into_iter().skip(j);
+                                let cnt = sk.by_ref().count();
+                                if cnt != n.saturating_sub(j) || sk.next().is_some() {
+                                    problems.push(format!("{} RecordSetIter: skip({}) yields {} of {} items, or an item after its end", stringify!($m), j, cnt, n));
                                 }
                             }
                             let last = (&set).into_iter().last().map(|r| { use seq_io::$m::Record; r.head().to_vec() });
@@ -901,7 +921,7 @@ pub fn c20(tier: Tier) -> i32 {
         Report {
             property: "C20".into(),
             tier: tier.name().into(),
-            rule: format!("every FASTA record with m = 0..{} sequence lines over the line menu {{x, empty, xy, x<CR>y}} x LF/CRLF x final terminator x followed by another record or not, obtained from a record set under 3 capacities: ALL 2^(m+2) sequences of next/next_back steps on seq_lines() with len()/size_hint() checked after every step, items, meeting ends, sticky end; adaptor menu (enumerate().rev(), rev().enumerate(), zip, skip(0..n+1), collect, rposition, len) on the iterator after every (front, back) prefix; RecordSetIter (both formats) size hint + fused, also on ONE set reused over all batches (plain loop; exact(3),exact(1),...; exact(2),(3),(1),...) at every (third) capacity so that later, smaller batches carry stale entries; RecordsIter / RecordsIntoIter end sticky incl. after an error (FASTQ defect family, {} files); records()/into_records() size_hint() before every one of 10 steps brackets the items still to come, skip(k), nth(k), count() against plain stepping on valid and invalid inputs and inputs with 1..4 leading/trailing blank lines (LF/CRLF), also with one transient source error at call 0..4", max_lines, fq.len()),
+            rule: format!("every FASTA record with m = 0..{} sequence lines over the line menu {{x, empty, xy, x<CR>y}} x LF/CRLF x final terminator x followed by another record or not, obtained from a record set under 3 capacities: ALL 2^(m+2) sequences of next/next_back steps on seq_lines() with len()/size_hint() checked after every step, items, meeting ends, sticky end; adaptor menu (enumerate().rev(), rev().enumerate(), zip, skip(0..n+1), collect, rposition, len) on the iterator after every (front, back) prefix; RecordSetIter (both formats) size hint + fused, count(), last(), nth(j) and skip(j) for j = 0..len+1 with the state they leave behind, also on ONE set reused over all batches (plain loop; exact(3),exact(1),...; exact(2),(3),(1),...) at every (third) capacity so that later, smaller batches carry stale entries; RecordsIter / RecordsIntoIter end sticky incl. after an error (FASTQ defect family, {} files); records()/into_records() size_hint() before every one of 10 steps brackets the items still to come, skip(k), nth(k), count() against plain stepping on valid and invalid inputs and inputs with 1..4 leading/trailing blank lines (LF/CRLF), also with one transient source error at call 0..4", max_lines, fq.len()),
             exhaustive: true,
             assumptions: vec!["line contents are drawn from a menu; the iterator logic depends only on the number of lines".into()],
             extra: json!({"states_note": "states = (record, consumed-front, consumed-back) triples; transitions = iterator steps executed"}),
